@@ -2561,3 +2561,115 @@ package analysis
 //@   ensures opts.Schema == nil ==> result1 != nil
 //@   ensures result1 == nil ==> result != nil && fresh(result)
 //@   ensures result1 == nil ==> failed == old(failed)
+
+// ---- the 'all' views hold nothing but category entries (C11: all references; C13: all patterns, all enums): every
+// key of an 'all' map is a key of one of its category maps, with the same value, and every key of a category map is a
+// key of its 'all' map. Aspect allview, over the whole walk.
+//@ ofun refAllOK(s *Spec) bool = (forall k in dom(s.references.allRefs) :: (k in dom(s.references.schemas) && s.references.schemas[k] == s.references.allRefs[k]) || (k in dom(s.references.parameters) && s.references.parameters[k] == s.references.allRefs[k]) || (k in dom(s.references.responses) && s.references.responses[k] == s.references.allRefs[k]) || (k in dom(s.references.items) && s.references.items[k] == s.references.allRefs[k]) || (k in dom(s.references.pathItems) && s.references.pathItems[k] == s.references.allRefs[k])) && (forall k in dom(s.references.schemas) :: k in dom(s.references.allRefs)) && (forall k in dom(s.references.parameters) :: k in dom(s.references.allRefs)) && (forall k in dom(s.references.responses) :: k in dom(s.references.allRefs)) && (forall k in dom(s.references.items) :: k in dom(s.references.allRefs)) && (forall k in dom(s.references.pathItems) :: k in dom(s.references.allRefs))
+//@ ofun patAllOK(s *Spec) bool = (forall k in dom(s.patterns.allPatterns) :: (k in dom(s.patterns.parameters) && s.patterns.parameters[k] == s.patterns.allPatterns[k]) || (k in dom(s.patterns.headers) && s.patterns.headers[k] == s.patterns.allPatterns[k]) || (k in dom(s.patterns.items) && s.patterns.items[k] == s.patterns.allPatterns[k]) || (k in dom(s.patterns.schemas) && s.patterns.schemas[k] == s.patterns.allPatterns[k])) && (forall k in dom(s.patterns.parameters) :: k in dom(s.patterns.allPatterns)) && (forall k in dom(s.patterns.headers) :: k in dom(s.patterns.allPatterns)) && (forall k in dom(s.patterns.items) :: k in dom(s.patterns.allPatterns)) && (forall k in dom(s.patterns.schemas) :: k in dom(s.patterns.allPatterns))
+//@ ofun enumAllOK(s *Spec) bool = (forall k in dom(s.enums.allEnums) :: (k in dom(s.enums.parameters) && s.enums.parameters[k] == s.enums.allEnums[k]) || (k in dom(s.enums.headers) && s.enums.headers[k] == s.enums.allEnums[k]) || (k in dom(s.enums.items) && s.enums.items[k] == s.enums.allEnums[k]) || (k in dom(s.enums.schemas) && s.enums.schemas[k] == s.enums.allEnums[k])) && (forall k in dom(s.enums.parameters) :: k in dom(s.enums.allEnums)) && (forall k in dom(s.enums.headers) :: k in dom(s.enums.allEnums)) && (forall k in dom(s.enums.items) :: k in dom(s.enums.allEnums)) && (forall k in dom(s.enums.schemas) :: k in dom(s.enums.allEnums))
+//@ fun allViewsOK(s *Spec) bool = refAllOK(s) && patAllOK(s) && enumAllOK(s)
+
+// BEGIN allview-walk (generated by /verif/tools/gen_safe_walk.py)
+//@ func (s *Spec) analyzeSchema(name, schema, prefix)
+//@   aspect allview
+//@   requires s != nil && schema != nil && idxMaps(s) && allViewsOK(s)
+//@   modifies map s.allSchemas, map s.allOfs, map s.references.schemas, map s.references.allRefs, map s.patterns.schemas, map s.patterns.allPatterns, map s.enums.schemas, map s.enums.allEnums
+//@   ensures allViewsOK(s)
+//@   loop 1: invariant allViewsOK(s)
+//@   loop 2: invariant allViewsOK(s)
+//@   loop 3: invariant allViewsOK(s)
+//@   loop 4: invariant allViewsOK(s)
+//@   loop 5: invariant allViewsOK(s)
+//@   loop 6: invariant allViewsOK(s)
+//@   loop 7: invariant allViewsOK(s)
+
+//@ func (s *Spec) analyzeItems(name, items, prefix, location)
+//@   aspect allview
+//@   requires s != nil && idxMaps(s) && allViewsOK(s)
+//@   modifies map s.references.items, map s.references.headerItems, map s.references.parameterItems, map s.references.allRefs, map s.patterns.items, map s.patterns.allPatterns, map s.enums.items, map s.enums.allEnums
+//@   ensures allViewsOK(s)
+
+//@ func (s *Spec) analyzeParameter(prefix, i, param)
+//@   aspect allview
+//@   requires s != nil && idxMaps(s) && allViewsOK(s)
+//@   modifies map s.references.parameters, map s.references.allRefs, map s.patterns.parameters, map s.patterns.allPatterns, map s.enums.parameters, map s.enums.allEnums, map s.references.items, map s.references.headerItems, map s.references.parameterItems, map s.patterns.items, map s.enums.items, map s.allSchemas, map s.allOfs, map s.references.schemas, map s.patterns.schemas, map s.enums.schemas
+//@   ensures allViewsOK(s)
+
+//@ func (s *Spec) analyzeDefaultResponse(prefix, res)
+//@   aspect allview
+//@   requires s != nil && res != nil && idxMaps(s) && allViewsOK(s)
+//@   modifies map s.references.responses, map s.references.allRefs, map s.patterns.headers, map s.patterns.allPatterns, map s.enums.headers, map s.enums.allEnums, map s.references.items, map s.references.headerItems, map s.references.parameterItems, map s.patterns.items, map s.enums.items, map s.allSchemas, map s.allOfs, map s.references.schemas, map s.patterns.schemas, map s.enums.schemas
+//@   ensures allViewsOK(s)
+//@   loop 1: invariant allViewsOK(s)
+
+//@ func (s *Spec) analyzeResponse(prefix, k, res)
+//@   aspect allview
+//@   requires s != nil && idxMaps(s) && allViewsOK(s)
+//@   modifies map s.references.responses, map s.references.allRefs, map s.patterns.headers, map s.patterns.allPatterns, map s.enums.headers, map s.enums.allEnums, map s.references.items, map s.references.headerItems, map s.references.parameterItems, map s.patterns.items, map s.enums.items, map s.allSchemas, map s.allOfs, map s.references.schemas, map s.patterns.schemas, map s.enums.schemas
+//@   ensures allViewsOK(s)
+//@   loop 1: invariant allViewsOK(s)
+
+//@ func (s *Spec) analyzeOperation(method, path, op)
+//@   aspect allview
+//@   requires s != nil && idxMaps(s) && opsWF(s) && allViewsOK(s)
+//@   modifies map s.operations, heap map[string]*spec.Operation, map s.consumes, map s.produces, map s.authSchemes, map s.allSchemas, map s.allOfs, map s.references.schemas, map s.references.responses, map s.references.parameters, map s.references.items, map s.references.headerItems, map s.references.parameterItems, map s.references.allRefs, map s.references.pathItems, map s.patterns.parameters, map s.patterns.headers, map s.patterns.items, map s.patterns.schemas, map s.patterns.allPatterns, map s.enums.parameters, map s.enums.headers, map s.enums.items, map s.enums.schemas, map s.enums.allEnums
+//@   ensures opsWF(s) && allViewsOK(s)
+//@   loop 1: modifies map s.consumes
+//@   loop 2: modifies map s.produces
+//@   loop 3: modifies map s.authSchemes
+//@   loop 4: modifies map s.authSchemes
+//@   loop 5: modifies heap spec.Parameter, map s.allSchemas, map s.allOfs, map s.references.schemas, map s.references.responses, map s.references.parameters, map s.references.items, map s.references.headerItems, map s.references.parameterItems, map s.references.allRefs, map s.patterns.parameters, map s.patterns.headers, map s.patterns.items, map s.patterns.schemas, map s.patterns.allPatterns, map s.enums.parameters, map s.enums.headers, map s.enums.items, map s.enums.schemas, map s.enums.allEnums
+//@   loop 6: modifies heap spec.Response, map s.allSchemas, map s.allOfs, map s.references.schemas, map s.references.responses, map s.references.parameters, map s.references.items, map s.references.headerItems, map s.references.parameterItems, map s.references.allRefs, map s.patterns.parameters, map s.patterns.headers, map s.patterns.items, map s.patterns.schemas, map s.patterns.allPatterns, map s.enums.parameters, map s.enums.headers, map s.enums.items, map s.enums.schemas, map s.enums.allEnums
+//@   loop 1: invariant allViewsOK(s)
+//@   loop 2: invariant allViewsOK(s)
+//@   loop 3: invariant allViewsOK(s)
+//@   loop 4: invariant allViewsOK(s)
+//@   loop 5: invariant allViewsOK(s)
+//@   loop 6: invariant allViewsOK(s)
+
+//@ func (s *Spec) analyzeOperations(path, pi)
+//@   aspect allview
+//@   requires s != nil && pi != nil && idxMaps(s) && opsWF(s) && allViewsOK(s)
+//@   modifies heap spec.Parameter, map s.operations, heap map[string]*spec.Operation, map s.consumes, map s.produces, map s.authSchemes, map s.allSchemas, map s.allOfs, map s.references.schemas, map s.references.responses, map s.references.parameters, map s.references.items, map s.references.headerItems, map s.references.parameterItems, map s.references.allRefs, map s.references.pathItems, map s.patterns.parameters, map s.patterns.headers, map s.patterns.items, map s.patterns.schemas, map s.patterns.allPatterns, map s.enums.parameters, map s.enums.headers, map s.enums.items, map s.enums.schemas, map s.enums.allEnums
+//@   ensures opsWF(s) && allViewsOK(s)
+//@   loop 1: modifies heap spec.Parameter, map s.allSchemas, map s.allOfs, map s.references.schemas, map s.references.responses, map s.references.parameters, map s.references.items, map s.references.headerItems, map s.references.parameterItems, map s.references.allRefs, map s.patterns.parameters, map s.patterns.headers, map s.patterns.items, map s.patterns.schemas, map s.patterns.allPatterns, map s.enums.parameters, map s.enums.headers, map s.enums.items, map s.enums.schemas, map s.enums.allEnums
+//@   loop 1: invariant allViewsOK(s)
+
+//@ func (s *Spec) initialize()
+//@   aspect allview
+//@   requires s != nil && s.spec != nil && idxMaps(s) && opsWF(s) && allViewsOK(s)
+//@   modifies heap spec.Parameter, heap spec.PathItem, map s.operations, heap map[string]*spec.Operation, map s.consumes, map s.produces, map s.authSchemes, map s.allSchemas, map s.allOfs, map s.references.schemas, map s.references.responses, map s.references.parameters, map s.references.items, map s.references.headerItems, map s.references.parameterItems, map s.references.allRefs, map s.references.pathItems, map s.patterns.parameters, map s.patterns.headers, map s.patterns.items, map s.patterns.schemas, map s.patterns.allPatterns, map s.enums.parameters, map s.enums.headers, map s.enums.items, map s.enums.schemas, map s.enums.allEnums
+//@   ensures allViewsOK(s)
+//@   loop 1: modifies map s.consumes
+//@   loop 2: modifies map s.produces
+//@   loop 3: modifies map s.authSchemes
+//@   loop 4: modifies map s.authSchemes
+//@   loop 5: modifies heap spec.Parameter, heap spec.PathItem, map s.operations, heap map[string]*spec.Operation, map s.consumes, map s.produces, map s.authSchemes, map s.allSchemas, map s.allOfs, map s.references.schemas, map s.references.responses, map s.references.parameters, map s.references.items, map s.references.headerItems, map s.references.parameterItems, map s.references.allRefs, map s.references.pathItems, map s.patterns.parameters, map s.patterns.headers, map s.patterns.items, map s.patterns.schemas, map s.patterns.allPatterns, map s.enums.parameters, map s.enums.headers, map s.enums.items, map s.enums.schemas, map s.enums.allEnums
+//@   loop 6: modifies map s.allSchemas, map s.allOfs, map s.references.schemas, map s.references.responses, map s.references.parameters, map s.references.items, map s.references.headerItems, map s.references.parameterItems, map s.references.allRefs, map s.references.pathItems, map s.patterns.parameters, map s.patterns.headers, map s.patterns.items, map s.patterns.schemas, map s.patterns.allPatterns, map s.enums.parameters, map s.enums.headers, map s.enums.items, map s.enums.schemas, map s.enums.allEnums
+//@   loop 7: modifies map s.allSchemas, map s.allOfs, map s.references.schemas, map s.references.responses, map s.references.parameters, map s.references.items, map s.references.headerItems, map s.references.parameterItems, map s.references.allRefs, map s.references.pathItems, map s.patterns.parameters, map s.patterns.headers, map s.patterns.items, map s.patterns.schemas, map s.patterns.allPatterns, map s.enums.parameters, map s.enums.headers, map s.enums.items, map s.enums.schemas, map s.enums.allEnums
+//@   loop 8: modifies map s.allSchemas, map s.allOfs, map s.references.schemas, map s.references.responses, map s.references.parameters, map s.references.items, map s.references.headerItems, map s.references.parameterItems, map s.references.allRefs, map s.references.pathItems, map s.patterns.parameters, map s.patterns.headers, map s.patterns.items, map s.patterns.schemas, map s.patterns.allPatterns, map s.enums.parameters, map s.enums.headers, map s.enums.items, map s.enums.schemas, map s.enums.allEnums
+//@   loop 9: modifies map s.allSchemas, map s.allOfs, map s.references.schemas, map s.references.responses, map s.references.parameters, map s.references.items, map s.references.headerItems, map s.references.parameterItems, map s.references.allRefs, map s.references.pathItems, map s.patterns.parameters, map s.patterns.headers, map s.patterns.items, map s.patterns.schemas, map s.patterns.allPatterns, map s.enums.parameters, map s.enums.headers, map s.enums.items, map s.enums.schemas, map s.enums.allEnums
+//@   loop 1: invariant allViewsOK(s)
+//@   loop 2: invariant allViewsOK(s)
+//@   loop 3: invariant allViewsOK(s)
+//@   loop 4: invariant allViewsOK(s)
+//@   loop 5: invariant opsWF(s) && allViewsOK(s)
+//@   loop 6: invariant allViewsOK(s)
+//@   loop 7: invariant allViewsOK(s)
+//@   loop 8: invariant allViewsOK(s)
+//@   loop 9: invariant allViewsOK(s)
+
+// END allview-walk
+
+//@ func New(doc)
+//@   aspect allview
+//@   requires doc != nil
+//@   modifies heap spec.Parameter, heap spec.PathItem, heap map[string]*spec.Operation
+//@   ensures result != nil && fresh(result) && result.spec == doc && allViewsOK(result)
+
+//@ func (s *Spec) reload()
+//@   aspect allview
+//@   requires s != nil && s.spec != nil
+//@   modifies heaps INDEX, heap spec.Parameter, heap spec.PathItem
+//@   ensures s.spec == old(s.spec) && allViewsOK(s)
